@@ -1,6 +1,8 @@
 ---- MODULE MC_MoveBalance ----
 EXTENDS MoveBalance, Json
-CONSTANTS Depth, Values, Prices, GasLimits, DataLens, DNonces, ScenarioSet
+CONSTANTS Depth, Values, Prices, GasLimits, DataLens, DNonces, ScenarioSet,
+          LeanSenders     \* senders for which only the representative transaction shape is generated (quick tier:
+                          \* the account that never exists in the quick scenarios)
 
 \* fee settings: minGasPrice 1, minGasLimit 2, gasPerDataByte 1, max gas per block 8, price modifier 1/2 (exact in
 \* float64), supply 40; the three flag configurations that exist in history:
@@ -32,6 +34,7 @@ MCScen == IF ScenarioSet = "quick" THEN ScenQuick ELSE ScenThorough
 Rep(tx) == tx.value = 0 /\ tx.price = 1 /\ tx.gl = 3 /\ tx.dl = 0
 MCTxs == {tx \in [snd : Users, rcv : Accts, dn : DNonces, value : Values, price : Prices, gl : GasLimits, dl : DataLens] :
             /\ tx.rcv \notin Users => tx.dl = 0        \* a transfer to a contract address that carries data is a contract call
+            /\ tx.snd \in LeanSenders => (Rep(tx) /\ tx.dn = 0)
             /\ tx.dn # 0 => Rep(tx)
             /\ tx.price < 1 => Rep([tx EXCEPT !.price = 1])
             /\ tx.value > 40 => Rep([tx EXCEPT !.value = 0])}    \* (with EcoB's supply 4 the value 41 is out of bounds, 4 is the limit)
